@@ -188,6 +188,17 @@ impl GrammarBuilder {
         }
     }
 
+    /// Fails if `extra` more symbols would exceed the grammar size limit; to be called before
+    /// materialising a sequence whose length comes from the input.
+    pub fn check_extra_size(&self, extra: usize) -> Result<()> {
+        ensure!(
+            self.grammar.num_symbols().saturating_add(extra) <= self.limits.max_grammar_size,
+            "grammar size (number of symbols) too big (limit for this grammar: {})",
+            self.limits.max_grammar_size,
+        );
+        Ok(())
+    }
+
     pub fn check_limits(&self) -> Result<()> {
         ensure!(
             self.regex.spec.cost() <= self.limits.initial_lexer_fuel,
